@@ -339,9 +339,10 @@ def block_propagator(ctx, ht):
     for space in ("GS", "EX"):
         Hloc = ht.dense_hloc(space)
         for _ in range(3):
-            kind = str(rng.choice(["real", "imag", "complex"]))
+            kind = str(rng.choice(["real", "imag", "complex", "real-as-complex"]))
             a, b = float(rng.uniform(0.05, 2.0)), float(rng.uniform(0.05, 2.0) * rng.choice([-1, 1]))
-            x = {"real": -a, "imag": 1j * b, "complex": -a + 1j * b}[kind]
+            # "real-as-complex": a real value carried by a complex number, as `-1j * evolve_dt` is for an imaginary time step
+            x = {"real": -a, "imag": 1j * b, "complex": -a + 1j * b, "real-as-complex": complex(-a, 0.0)}[kind]
             shift = float(rng.choice([0.0, rng.uniform(-1.5, 1.5)]))
             try:
                 prop = Mpo.exact_propagator(ht.model, x, space, shift)
@@ -370,9 +371,12 @@ def block_evolve_exact(ctx, ht):
         nexc = 1 if space == "EX" else 0
         for offset in (0.0, float(np.round(rng.uniform(0.3, 2.0) * rng.choice([-1, 1]), 3))):
             dt = float(rng.uniform(0.1, 1.5))
+            imag_time = bool(rng.random() < 0.3)
+            if imag_time:
+                dt = -1j * dt           # imaginary time: U = exp(-tau (H_loc [+offset bookkeeping]))
             h_mpo = Mpo(ht.model, offset=Quantity(offset))
             U = scipy.linalg.expm(-1j * dt * Hloc)
-            cls = "zero-offset" if offset == 0 else "nonzero-offset"
+            cls = ("zero-offset" if offset == 0 else "nonzero-offset") + (":imag-time" if imag_time else "")
             # ---- Mps
             L.seed_legacy(rng)
             try:
